@@ -188,23 +188,29 @@ func checkC08(c *Ctx) {
 		"d/d.go":   "package d\n\nimport (\n\t\"scratch/a\"\n\t\"scratch/px\"\n)\n\ntype D struct {\n\tA *a.A\n\tM map[string]px.P\n}\n\nfunc eq(x, y *D) bool { return deriveEqual(x, y) }\n\nfunc g(x *D) *D { return deriveClone(x) }\n\nfunc s(a, b struct {\n\tN px.Label\n\tM []int\n}) bool {\n\treturn deriveEqualS(a, b)\n}\n",
 		"z/z.go":   "package z\n\ntype Z struct{ K map[int][]string }\n\nfunc ks(z *Z) []int { return deriveSort(deriveKeys(z.K)) }\n\nfunc e(a, b *Z) bool { return deriveEqual(a, b) }\n",
 	}
-	pkgs := []string{"a", "px", "d", "z"}
+	// two imported packages with the same name: "both" needs an alias for one of them, "only2" imports
+	// just the second and must get the same bytes whichever packages are processed alongside it
+	mod["v1/model/m.go"] = "package model\n\ntype Item struct {\n\tN int\n\tS []string\n}\n"
+	mod["v2/model/m.go"] = "package model\n\ntype Item struct {\n\tK string\n\tP *int\n}\n"
+	mod["both/b.go"] = "package both\n\nimport (\n\tm1 \"scratch/v1/model\"\n\tm2 \"scratch/v2/model\"\n)\n\ntype Mig struct {\n\tOld m1.Item\n\tNew m2.Item\n}\n\nfunc e(a, b *Mig) bool { return deriveEqual(a, b) }\n\nfunc c(a *Mig) *Mig { return deriveClone(a) }\n\nfunc e1(a, b []m1.Item) bool { return deriveEqualOld(a, b) }\n\nfunc e2(a, b []m2.Item) bool { return deriveEqualNew(a, b) }\n"
+	mod["only2/o.go"] = "package only2\n\nimport \"scratch/v2/model\"\n\nfunc e(a, b []model.Item) bool { return deriveEqual(a, b) }\n\nfunc c(a map[string]model.Item) map[string]model.Item { return deriveClone(a) }\n\nfunc h(a *model.Item) uint64 { return deriveHash(a) }\n"
+	pkgs := []string{"a", "px", "d", "z", "both", "only2"}
 	type variant struct {
 		name string
 		runs [][]string // each inner slice = args of one invocation
 	}
 	var variants []variant
 	variants = append(variants, variant{"dotdotdot", [][]string{{"./..."}}})
-	variants = append(variants, variant{"separate-relative", [][]string{{"./a"}, {"./px"}, {"./d"}, {"./z"}}})
-	variants = append(variants, variant{"separate-importpath", [][]string{{"scratch/z"}, {"scratch/d"}, {"scratch/px"}, {"scratch/a"}}})
-	perm := []string{"./a", "./px", "./d", "./z"}
+	variants = append(variants, variant{"separate-relative", [][]string{{"./a"}, {"./px"}, {"./d"}, {"./z"}, {"./both"}, {"./only2"}}})
+	variants = append(variants, variant{"separate-importpath", [][]string{{"scratch/only2"}, {"scratch/z"}, {"scratch/d"}, {"scratch/px"}, {"scratch/a"}, {"scratch/both"}}})
+	perm := []string{"./a", "./px", "./d", "./z", "./both", "./only2"}
 	for i := 0; i < tierN(c, 4, 24); i++ {
 		p := append([]string{}, perm...)
 		r.Shuffle(len(p), func(i, j int) { p[i], p[j] = p[j], p[i] })
 		variants = append(variants, variant{"grouped-order-" + strings.Join(p, ","), [][]string{p}})
 	}
 	for i := 0; i < tierN(c, 3, 12); i++ {
-		p := []string{"scratch/a", "scratch/px", "scratch/d", "scratch/z"}
+		p := []string{"scratch/a", "scratch/px", "scratch/d", "scratch/z", "scratch/both", "scratch/only2"}
 		r.Shuffle(len(p), func(i, j int) { p[i], p[j] = p[j], p[i] })
 		for j := range p {
 			if r.Intn(2) == 0 {
@@ -217,8 +223,10 @@ func checkC08(c *Ctx) {
 		// the loader hands packages over in map order: the same grouped invocation is repeated
 		variants = append(variants, variant{fmt.Sprintf("dotdotdot-repeat-%d", i), [][]string{{"./..."}}})
 	}
-	variants = append(variants, variant{"subset-d-then-rest", [][]string{{"./d"}, {"./px", "./a"}, {"./z"}}})
-	variants = append(variants, variant{"subset-importpath-pairs", [][]string{{"scratch/px", "scratch/d"}, {"scratch/a", "./z"}}})
+	variants = append(variants, variant{"subset-d-then-rest", [][]string{{"./d"}, {"./px", "./a"}, {"./z", "./both", "./only2"}}})
+	variants = append(variants, variant{"subset-importpath-pairs", [][]string{{"scratch/px", "scratch/d"}, {"scratch/a", "./z"}, {"scratch/both", "scratch/only2"}}})
+	variants = append(variants, variant{"samename-pair-both-first", [][]string{{"./a", "./px", "./d", "./z"}, {"./both", "./only2"}}})
+	variants = append(variants, variant{"samename-pair-only2-first", [][]string{{"./a", "./px", "./d", "./z"}, {"./only2", "./both"}}})
 	type vres struct {
 		sums map[string]string
 		outs map[string]string
